@@ -463,7 +463,9 @@ def onErrorHandle (cfg : ECfg) (key depth savedLen : Nat) (ex : Exc) (s' : RStat
   | none => none
   | some (pos, _) =>
     let (line, col) := Tok.location cfg.src { str := [], pos := pos }
-    let cut := ((s'.env.topFrame.saved.find? (·.1 == key)).map (·.2)).getD savedLen
+    -- the saved length lives in a Python local: one per on-error node, or (quirk D-13a) one per function
+    let cut := if cfg.tc.q.sharedFallbackVar then ((s'.env.topFrame.saved.find? (·.1 == key)).map (·.2)).getD savedLen
+               else savedLen
     let streams0 := s'.streams.drop (s'.streams.length - depth)
     let streams1 := match streams0 with | top :: rest => top.take cut :: rest | [] => []
     let env' : Env := { s'.env with own := (lit "error", Val.errorInfo ex.cls ex.msg line col) :: s'.env.own.filter (·.1 != lit "error") }
